@@ -109,7 +109,7 @@ theorem riscvGo_sound (rvf : Bool) (tys : List ATy) : ∀ (regs fregs : List Nat
       | true =>
         simp only [if_true]
         cases fregs with
-        | nil => exact stackCase t.tsize t.isize regs [] sorry (fun _ h => h) (fun _ h => h) hr hf
+        | nil => simpa using stackCase t.isize t.isize regs [] (Nat.le_refl _) (fun _ h => h) (fun _ h => h) hr hf
         | cons r fs => exact fregCase r fs rfl
       | false =>
         simp only [Bool.false_eq_true, if_false]
@@ -120,6 +120,51 @@ theorem riscvGo_sound (rvf : Bool) (tys : List ATy) : ∀ (regs fregs : List Nat
       simp only
       cases regs with
       | nil => simpa using stackCase t.isize t.isize [] fregs (Nat.le_refl _) (fun _ h => h) (fun _ h => h) hr hf
+      | cons r rs => exact regCase r rs rfl
+
+theorem armGo_sound (tys : List ATy) : ∀ (regs : List Nat) (off : Int), regs.Nodup →
+    (∀ l ∈ armGo tys regs off, Within regs [] off l) ∧ List.Pairwise Loc.Distinct (armGo tys regs off) := by
+  induction tys with
+  | nil => intro regs off _; simp [armGo]
+  | cons t rest ih =>
+    intro regs off hr
+    have stackCase : ∀ (slot : Nat) (regs' : List Nat), (∀ n, n ∈ regs' → n ∈ regs) → regs'.Nodup →
+        (∀ l ∈ Loc.stack off slot :: armGo rest regs' (off + slot), Within regs [] off l) ∧
+        List.Pairwise Loc.Distinct (Loc.stack off slot :: armGo rest regs' (off + slot)) := by
+      intro slot regs' h1 n1
+      have IH := ih regs' (off + slot) n1
+      have hs : (0 : Int) ≤ (slot : Int) := Int.natCast_nonneg _
+      refine ⟨?_, ?_⟩
+      · intro l hl
+        rcases List.mem_cons.mp hl with rfl | hl
+        · exact Int.le_refl _
+        · exact (IH.1 l hl).mono h1 (fun _ h => h) (by omega)
+      · exact List.Pairwise.cons (fun l hl => stack_distinct (Int.le_refl _) (IH.1 l hl)) IH.2
+    have regCase : ∀ (r : Nat) (rs : List Nat), regs = r :: rs →
+        (∀ l ∈ Loc.reg r :: armGo rest rs off, Within regs [] off l) ∧
+        List.Pairwise Loc.Distinct (Loc.reg r :: armGo rest rs off) := by
+      intro r rs e
+      subst e
+      have hn := List.nodup_cons.mp hr
+      have IH := ih rs off hn.2
+      refine ⟨?_, ?_⟩
+      · intro l hl
+        rcases List.mem_cons.mp hl with rfl | hl
+        · exact List.mem_cons_self
+        · exact (IH.1 l hl).mono (fun n h => List.mem_cons_of_mem _ h) (fun _ h => h) (Int.le_refl _)
+      · exact List.Pairwise.cons (fun l hl => reg_distinct hn.1 (IH.1 l hl)) IH.2
+    unfold armGo
+    cases hk : t.kind with
+    | blob => simpa using stackCase t.tsize regs (fun _ h => h) hr
+    | flt =>
+      simp only
+      cases regs with
+      | nil => simpa using stackCase t.isize [] (fun _ h => h) hr
+      | cons r rs => exact regCase r rs rfl
+    | int =>
+      simp only
+      cases regs with
+      | nil => simpa using stackCase t.isize [] (fun _ h => h) hr
       | cons r rs => exact regCase r rs rfl
 
 end Proofs.ArgLoc
